@@ -9,7 +9,7 @@ from vf.harness.common import bounds_of, method_classes, program_of, ref_opts, s
 from vf.harness.deser_e2e import has_obj
 from vf.oracle.coerce import BOOL_WORDS
 from vf.oracle.deser import jkind
-from vf.specs import Sp, named, walk
+from vf.specs import Sp, named, static_alias, walk
 from vf.sym import Gen, same
 
 
@@ -151,7 +151,7 @@ class Norm:
                         consumed.add(key)
                         out[key] = self.norm(m.a[1], out[key])
             else:
-                a = self.opts.aliaser(f.ext)
+                a = self.opts.aliaser(static_alias(s, f))
                 if a in out:
                     consumed.add(a)
                     fsp = f.sp
